@@ -40,7 +40,7 @@ type Options struct {
 	OnlyLevel  bool       `json:"only_level"`  // Bounded: evaluate only executions with exactly Bound deviations (lower levels were done by an earlier iteration)
 	FreeSwitch bool       `json:"free_switch"` // Bounded: non-preemptive context switches cost nothing
 	Shard      int        `json:"shard"`
-	Shards     int        `json:"shards"` // 0/1 = no sharding
+	Shards     int        `json:"shards"`   // 0/1 = no sharding
 	SplitAt    int        `json:"split_at"` // SleepSets: number of branching steps that form the shared top of the tree
 	Cfg        vrt.Config `json:"cfg"`
 	DeadlineMs int64      `json:"deadline_ms"` // unix ms; 0 = none
@@ -97,6 +97,7 @@ type Result struct {
 	Infos        []Failure      `json:"infos,omitempty"`
 	Nondet       string         `json:"nondeterminism,omitempty"`
 	WallMs       int64          `json:"wall_ms"`
+	SampleTrace  string         `json:"sample_trace,omitempty"` // op trace of the first evaluated execution
 }
 
 type frame struct {
@@ -441,6 +442,9 @@ func Explore(name string, opt Options, mk func() Exec) *Result {
 			continue
 		}
 		res.Executions++
+		if res.SampleTrace == "" {
+			res.SampleTrace = clip(vrt.FormatTrace(out.Trace), 1500)
+		}
 		res.TotalSteps += int64(out.Steps)
 		if out.Steps > res.MaxSteps {
 			res.MaxSteps = out.Steps
